@@ -90,6 +90,36 @@ from pathlib import Path
 GEN_REL = "LenaModel/Gen/C20Facts.lean"
 IMPLICIT = ["__name__", "__doc__", "__package__", "__loader__", "__spec__", "__file__", "__cached__", "__builtins__"]
 LOCAL_SUFFIX = " (local)"
+# what a handler catches of the failures the resolver knows: bit 0 ImportError, bit 1 NameError, bit 2 AttributeError
+HANDLER_MASK = {"ImportError": 1, "ModuleNotFoundError": 1, "NameError": 2, "UnboundLocalError": 2, "AttributeError": 4,
+                "Exception": 7, "BaseException": 7}
+PROTOCOL_METHODS = {"__getattr__", "__setattr__", "__delattr__", "__getattribute__"}
+# Reads of locals that CPython's own definite-assignment analysis cannot prove bound (LOAD_FAST_CHECK), looked at one
+# by one: (module, qualified function name, variable) -> why the read cannot find the variable unbound.  Any other
+# such read is reported as a possible UnboundLocalError.
+AUDITED_MAYBE_UNBOUND = {
+    ("lena.core.fill_compute_seq", "_init_sequence_with_el", "ind"):
+        "the loop ran at least once: otherwise `el is None` and the function has raised LenaTypeError before the read",
+    ("lena.core.fill_compute_seq", "FillComputeSeq.__init__", "ind"):
+        "the loop ran at least once: otherwise `fc_el is None` and LenaTypeError was raised before the read",
+    ("lena.core.source", "Source.__call__", "flow"):
+        "`first` is callable or has __iter__: Source.__init__ raises LenaTypeError otherwise, so one branch binds `flow`",
+    ("lena.math.elements", "Mean.compute", "scont"):
+        "read only `if sums:`; `sums` is non-empty only in the branch that binds `scont` (the other sets sums = [])",
+    ("lena.output.to_csv", "iterable_to_table", "format_str"):
+        "bound under `format_ is not None`, read only in the `else` of `format_ is None`",
+    ("lena.output.to_csv", "hist2d_to_csv", "bin_content"):
+        "the loops over edges[k][:-1] run at least once: histogram edges have at least two values per axis "
+        "(check_edges_increasing raises LenaValueError otherwise)",
+    ("lena.output.to_csv", "hist2d_to_csv", "x_ind"):
+        "as for bin_content: the outer loop ran at least once",
+    ("lena.output.write", "Write.run", "existing_data"):
+        "bound in the body of the `with open(...)` just before; the compiler only cannot exclude that __exit__ swallowed an exception",
+    ("lena.output.write_root_tree", "WriteROOTTree.run", "root_file"):
+        "self._root_file is a TFile, a str or a tuple: WriteROOTTree.__init__ raises LenaValueError for anything else",
+    ("lena.structures.graph", "graph._parse_error_names", "err_tail"):
+        "read only when len(err_coords) == 1, i.e. the branch that binds it ran (the other cases raise LenaValueError)",
+}
 STDLIB = set(sys.stdlib_module_names)
 # modules of the Python-2 standard library: never importable under CPython 3 (not an environment dimension)
 PY2_ONLY = {"future_builtins", "cPickle", "cStringIO", "StringIO", "__builtin__", "ConfigParser", "Queue", "urllib2",
@@ -131,6 +161,7 @@ class _Scope:
         # appended to this function's own events: "the closure check at the end of the owner")
         self.cells = _cells(table) if kind == "function" and not is_comp else set()
         self.closure_reads = []
+        self.aliases = set()        # locals bound by nothing but `x = <name>.<attr>...` (aliases of modules)
 
     def reader(self):
         """the def / lambda whose code this scope belongs to (comprehensions belong to their enclosing code)"""
@@ -218,15 +249,85 @@ class ModuleTranslator:
     def LN(self, scope, name):
         """the identifier of `name` as code of `scope` means it: a local that only import statements bind is a
         name of its own ("lena (local)"), so that it can never be mistaken for the module's global `lena`"""
-        if scope.kind == "function" and (name in scope.implocals or name in scope.cells) \
-                and name not in getattr(scope, "comp_locals", ()):
+        if self.tracked(scope, name):
             return self.tr.intern(name + LOCAL_SUFFIX)
         return self.tr.intern(name)
 
     def tracked(self, scope, name):
         """a local of a function the resolver follows: bound only by imports, or read by inner functions"""
-        return scope.kind == "function" and (name in scope.implocals or name in scope.cells) \
+        return scope.kind == "function" and \
+            (name in scope.implocals or name in scope.cells or name in scope.aliases) \
             and name not in getattr(scope, "comp_locals", ())
+
+    @staticmethod
+    def chain_of(node):
+        """(root name, [attrs]) if `node` is `name.a.b` (or just `name`), else None"""
+        chain = []
+        while isinstance(node, ast.Attribute):
+            chain.append(node.attr)
+            node = node.value
+        if isinstance(node, ast.Name) and isinstance(node.ctx, ast.Load):
+            return node.id, chain[::-1]
+        return None
+
+    def alias_locals(self, fnode, table):
+        """locals of the function that are bound by nothing but assignments `x = name.a.b` whose root is a global,
+        an import-bound local or another such alias: the resolver follows them (`flow_mod = lena.flow`)"""
+        binds = {}      # name -> list of ("chain", root) | ("other",)
+
+        def visit(node, top):
+            for ch in ast.iter_child_nodes(node):
+                if isinstance(ch, (ast.FunctionDef, ast.AsyncFunctionDef, ast.Lambda, ast.ClassDef)) and not top:
+                    pass
+                if isinstance(ch, (ast.FunctionDef, ast.AsyncFunctionDef, ast.ClassDef)):
+                    binds.setdefault(ch.name, []).append(("other",))
+                    continue            # another scope
+                if isinstance(ch, ast.Lambda):
+                    continue
+                if isinstance(ch, ast.Assign) and len(ch.targets) == 1 and isinstance(ch.targets[0], ast.Name) \
+                        and self.chain_of(ch.value) is not None:
+                    binds.setdefault(ch.targets[0].id, []).append(("chain", self.chain_of(ch.value)[0]))
+                    continue
+                if isinstance(ch, ast.Name) and isinstance(ch.ctx, (ast.Store, ast.Del)):
+                    binds.setdefault(ch.id, []).append(("other",))
+                if isinstance(ch, (ast.Import, ast.ImportFrom)):
+                    for a in ch.names:
+                        binds.setdefault(a.asname or a.name.split(".")[0], []).append(("other",))
+                if isinstance(ch, ast.ExceptHandler) and ch.name:
+                    binds.setdefault(ch.name, []).append(("other",))
+                visit(ch, False)
+        for stmt in fnode.body:
+            visit(ast.Module(body=[stmt], type_ignores=[]), True)
+        params = {a.arg for a in fnode.args.posonlyargs + fnode.args.args + fnode.args.kwonlyargs} | \
+            {x.arg for x in (fnode.args.vararg, fnode.args.kwarg) if x}
+        cand = {n for n, bs in binds.items() if n not in params and all(b[0] == "chain" for b in bs)}
+
+        def root_ok(root, seen=()):
+            if root in cand:
+                return True
+            try:
+                sym = table.lookup(root)
+            except KeyError:
+                return True
+            if sym.is_global():
+                return True
+            return sym.is_local() and sym.is_imported() and not sym.is_assigned() and not sym.is_parameter()
+        changed = True
+        while changed:
+            changed = False
+            for n in list(cand):
+                if not all(root_ok(b[1]) for b in binds[n]):
+                    cand.discard(n)
+                    changed = True
+        out = set()
+        for n in cand:
+            try:
+                sym = table.lookup(n)
+                if sym.is_local():
+                    out.add(n)
+            except KeyError:
+                pass
+        return out
 
     def free_read(self, scope, name, chain):
         """a read of the free variable `name` (followed by the attribute chain `chain`) in an inner function:
@@ -260,7 +361,7 @@ class ModuleTranslator:
         if scope.kind == "class":
             return "skip"
         if s.is_local():
-            return "implocal" if name in scope.implocals else "skip"
+            return "implocal" if (name in scope.implocals or name in scope.aliases) else "skip"
         if s.is_free() and name != "__class__":
             return "free"
         return "skip"
@@ -609,6 +710,8 @@ class ModuleTranslator:
         tab = scope.child(st.name, st.lineno)
         qual = scope.qual + st.name
         sub = _Scope("function", tab, qual + ".<locals>.", _implocals(tab), parent=scope)
+        sub.aliases = self.alias_locals(st, tab)
+        self.tr.stats["module_alias_locals"] = self.tr.stats.get("module_alias_locals", 0) + len(sub.aliases)
         evs = []
         self.bind_params(a, sub, evs)
         self.stmts(st.body, sub, evs)
@@ -643,6 +746,25 @@ class ModuleTranslator:
             sub = _Scope("class", tab, scope.qual + st.name + ".", parent=scope)
             self.stmts(st.body, sub, out)
             self.bind_def(st.name, scope, out)
+        elif isinstance(st, ast.Assign) and len(st.targets) == 1 and isinstance(st.targets[0], ast.Name) \
+                and self.chain_of(st.value) is not None \
+                and st.targets[0].id not in getattr(scope, "comp_locals", ()) \
+                and (scope.kind == "module" or (scope.kind == "function" and st.targets[0].id in scope.aliases)) \
+                and self.classify(scope, self.chain_of(st.value)[0]) in ("global", "implocal") \
+                and st.targets[0].id != "__all__":
+            # `x = name.a.b`: the chain is read and `x` is bound to what it denotes (a module stays a module)
+            root, chain = self.chain_of(st.value)
+            t = st.targets[0]
+            node = st.value
+            while isinstance(node, ast.Attribute):
+                self.seen.add(id(node))
+                node = node.value
+            self.seen.add(id(node))
+            self.seen.add(id(t))
+            out.append(("alias", self.LN(scope, t.id), self.LN(scope, root), [N(a) for a in chain]))
+            self.tr.stats["attr_chains" if chain else "loads"] += 1
+            if scope.kind == "module":
+                self.may.add(t.id)
         elif isinstance(st, ast.Assign):
             self.expr(st.value, scope, out)
             for t in st.targets:
@@ -754,36 +876,57 @@ class ModuleTranslator:
             for child in ast.iter_child_nodes(st):
                 self.expr(child, scope, out)
 
-    def _emit_region(self, evs, body, scope, out):
+    def _emit_region(self, evs, body, scope, out, force=False):
         if not evs:
             return
-        if self.needs_region(scope, body):
+        if force or self.needs_region(scope, body):
             out.append(("enter",))
             out.extend(evs)
             out.append(("leave",))
         else:
             out.extend(evs)
 
+    @staticmethod
+    def handler_mask(h):
+        """which of the failures the resolver knows the handler catches (bare `except`: all)"""
+        if h.type is None:
+            return 7
+        m = 0
+        for n in ast.walk(h.type):
+            if isinstance(n, ast.Name):
+                m |= HANDLER_MASK.get(n.id, 0)
+            elif isinstance(n, ast.Attribute):
+                m |= HANDLER_MASK.get(n.attr, 0)
+        return m
+
     def try_(self, st, scope, out):
-        catches = lambda h: h.type is None or any(
-            isinstance(n, ast.Name) and n.id in IMPORT_EXC for n in ast.walk(h.type))
-        catching = [h for h in st.handlers if catches(h)]
-        if scope.kind != "function" and catching:
-            # import-time code with a handler for ImportError: which path runs depends on the environment (an
-            # optional third-party module may be absent, here or in a module imported from here): the resolver decides
-            self.tr.stats["try_except_importerror"] += 1
-            out.append(("tryBegin",))
+        """`try` statements.  A handler that catches one of the failures the resolver knows (ImportError, NameError,
+        AttributeError; `except Exception`, bare `except`) is translated with its structure: the resolver runs it
+        exactly when the body raises such a failure -- `try: unicode / except NameError:` is not a failure.
+        Several such handlers nest (the first one innermost).  Other handlers (`except LenaKeyError:`) are regions.
+        Inside a function the handlers are, in addition, always checked as regions (all paths at once)."""
+        catching = [(h, self.handler_mask(h)) for h in st.handlers]
+        catching = [(h, m) for h, m in catching if m]
+        if catching:
+            self.tr.stats["try_except_catching"] += 1
+            for _ in catching:
+                out.append(("tryBegin",))
             self.stmts(st.body, scope, out)
             self.stmts(st.orelse, scope, out)
-            out.append(("tryExcept",))
-            self.handler(catching[0], scope, out, inline=True)
-            out.append(("tryEnd",))
+            again = []
+            for h, m in catching:
+                out.append(("tryExcept", m))
+                evs = self.handler_events(h, scope)
+                out.extend(evs)
+                out.append(("tryEnd",))
+                again.append((evs, h))
+            if scope.kind == "function":
+                for evs, h in again:
+                    self._emit_region(list(evs), h.body, scope, out, force=True)
             for h in st.handlers:
-                if h is not catching[0]:
+                if not self.handler_mask(h):
                     self.handler(h, scope, out, inline=False)
         else:
-            # (inside a function the body is taken to run to its end -- the path on which an optional module is
-            # installed -- and the handlers are checked as regions; only import-bound locals depend on it there)
             self.stmts(st.body, scope, out)
             for h in st.handlers:
                 self.handler(h, scope, out, inline=False)
@@ -791,6 +934,13 @@ class ModuleTranslator:
         self.stmts(st.finalbody, scope, out)
 
     def handler(self, h, scope, out, inline):
+        evs = self.handler_events(h, scope)
+        if inline:
+            out.extend(evs)
+        else:
+            self._emit_region(evs, h.body, scope, out)
+
+    def handler_events(self, h, scope):
         evs = []
         self.expr(h.type, scope, evs)
         track = h.name and (scope.kind == "module" or self.tracked(scope, h.name))
@@ -799,10 +949,7 @@ class ModuleTranslator:
         self.stmts(h.body, scope, evs)
         if track:
             evs.append(("unbind", self.LN(scope, h.name)))
-        if inline:
-            out.extend(evs)
-        else:
-            self._emit_region(evs, h.body, scope, out)
+        return evs
 
     def bind_name(self, name, scope, out, mod=None):
         """binding made by an import statement"""
@@ -954,7 +1101,7 @@ class Translator:
         self.repo = Path(repo)
         self.intern = Interner()
         self.stats = {k: 0 for k in ("loads", "attr_chains", "functions", "imports", "static_version_tests",
-                                     "statements_in_dead_version_branches", "try_except_importerror")}
+                                     "statements_in_dead_version_branches", "try_except_catching")}
         self.notes = []
         self.modid = {}
         self.modules = []
@@ -1061,7 +1208,7 @@ def _bindable(mods):
         out.update(m["all_ids"] or [])
         for evs in [m["evs"]] + [f["evs"] for f in m["funcs"]]:
             for e in evs:
-                if e[0] in ("bind", "bindMod", "unbind", "gbind", "gunbind"):
+                if e[0] in ("bind", "bindMod", "unbind", "gbind", "gunbind", "alias"):
                     out.add(e[1])
                 elif e[0] == "from":
                     out.add(e[2])
@@ -1087,6 +1234,8 @@ def _renumber(self, mods, n_builtins):
             return (k, new_of[e[1]], e[2])
         if k == "attr":
             return (k, new_of[e[1]], [new_of[a] for a in e[2]])
+        if k == "alias":
+            return (k, new_of[e[1]], new_of[e[2]], [new_of[a] for a in e[3]])
         if k == "from":
             return (k, e[1], new_of[e[2]], new_of[e[3]])
         return e
@@ -1134,8 +1283,12 @@ def _ev(e):
         return ".leave"
     if k == "ext":
         return f".ext {e[1]}"
-    if k in ("tryBegin", "tryExcept", "tryEnd"):
+    if k in ("tryBegin", "tryEnd"):
         return "." + k
+    if k == "tryExcept":
+        return f".tryExcept {e[1]}"
+    if k == "alias":
+        return f".alias {e[1]} {e[2]} [{', '.join(map(str, e[3]))}]"
     if k in ("gbind", "gunbind"):
         return f".{k} {e[1]}"
     raise ValueError(e)
